@@ -84,6 +84,33 @@ def run(ctx):
     ins = msb.calls(r'HashSet::<.*>::insert$')
     okm2 = len(ins) >= 2 and any('local_peer_id' in msb.expr(c.args[1]).show() for c in ins) and any('local_transport_peer_id' in msb.expr(c.args[1]).show() or 'tid' in L._names(msb.expr(c.args[1])) for c in ins)
     ctx.ob('NO-SELF', 'mark_self_queried:both-ids', okm2, msb.where(), 'mark_self_queried inserts the app-level and the transport-level local id: %s' % okm2)
+    # the seed asks the local tables for at least `count` nodes: a locally known peer among the `count` closest is
+    # then in the queue from the start (nothing else ever puts a locally known peer there)
+    seeds = [c for c in b.calls(r'::find_closest_nodes_local$') if c.bb not in nodes]
+    for i, c in enumerate(seeds):
+        # async fn: the call builds the future; args = (self, key, count)
+        ce = b.expr(c.args[-1])
+        st = ce.strip()
+
+        def at_least_count(x):
+            x = x.strip()
+            if x.k == 'param' and x.b == 'count':
+                return True
+            if x.k == 'bin' and x.a in ('Add', 'Mul', 'AddWithOverflow', 'MulWithOverflow'):
+                return (at_least_count(x.b) and (x.c.const_value() or 0) >= (1 if x.a.startswith('Mul') else 0)) or \
+                       (at_least_count(x.c) and (x.b.const_value() or 0) >= (1 if x.a.startswith('Mul') else 0))
+            if x.k == 'field' and x.b in ('::0',) and x.a.strip().k == 'bin':
+                return at_least_count(x.a)
+            if x.k == 'call' and re.search(r'::max$|::saturating_add$|::saturating_mul$', x.a):
+                return any(at_least_count(a) for a in x.b)
+            return False
+        oks = at_least_count(st)
+        ctx.ob('SEED', 'local-seed#%d:count' % i, oks, c.where(),
+               ('the lookup seeds its queue with find_closest_nodes_local(key, %s): at least `count`' % st.brief(60)) if oks else
+               ('the lookup seeds its queue with find_closest_nodes_local(key, %s), which can be fewer than `count`: a locally known, '
+                'closer peer beyond that cut is never queued (replies are the only other source)' % st.brief(60)),
+               entry=MGR + '::find_closest_nodes_network' if 'MGR' in globals() else None)
+    ctx.floor('SEED', 1)
     for i, c in enumerate(queue_p):
         conds = F.dominating_conds(b, c.bb)
         in_loop = c.bb in nodes
